@@ -156,8 +156,8 @@ func c13AST(c *core.Ctx, pkg *packages.Package) {
 		// n.TypeOf() → the constant that method returns
 		if call, ok := ast.Unparen(x).(*ast.CallExpr); ok {
 			if fn := core.Callee(info, call); fn != nil && fn.Name() == "TypeOf" {
-				if m := typeOfM[core.RecvTypeName(fn)]; m != nil && len(m.Decl.Body.List) == 1 {
-					if r, ok := m.Decl.Body.List[0].(*ast.ReturnStmt); ok && len(r.Results) == 1 {
+				if m := typeOfM[core.RecvTypeName(fn)]; m != nil && len(an.Effective(m.Decl.Body.List)) == 1 {
+					if r, ok := an.Effective(m.Decl.Body.List)[0].(*ast.ReturnStmt); ok && len(r.Results) == 1 {
 						return strLit(info, r.Results[0])
 					}
 				}
@@ -1467,8 +1467,8 @@ func c13JSONRead(c *core.Ctx, pkg *packages.Package) {
 		ast.Inspect(fn.Decl.Body, func(n ast.Node) bool {
 			switch x := n.(type) {
 			case *ast.IfStmt:
-				if types.ExprString(x.Cond) == val+" == nil" && len(x.Body.List) == 1 {
-					if r, ok := x.Body.List[0].(*ast.ReturnStmt); ok && len(r.Results) == 2 && types.ExprString(r.Results[1]) == "nil" {
+				if types.ExprString(x.Cond) == val+" == nil" && len(an.Effective(x.Body.List)) == 1 {
+					if r, ok := an.Effective(x.Body.List)[0].(*ast.ReturnStmt); ok && len(r.Results) == 2 && types.ExprString(r.Results[1]) == "nil" {
 						okk = true
 						nilPos = x.Pos()
 					}
